@@ -6,6 +6,7 @@ import (
 	"encoding/binary"
 	"fmt"
 	"testing"
+	"time"
 
 	"github.com/SAP/go-dblib/asetypes"
 	"github.com/SAP/go-dblib/tds"
@@ -407,4 +408,88 @@ func TestPackageLeg(t *testing.T) {
 		return c
 	}
 	vh.Check(t, "TestPackageLeg", vh.N(12000, 300000), gen, runPkgLeg)
+}
+
+// ---- arbitrary instants: any time.Time of the type's range, not only ones derived from
+// a tick: the value comes back to within one tick (which may be the first tick of the
+// next day for the last half tick of a day)
+
+type instantCase struct {
+	T     byte  `json:"t"`
+	W     int   `json:"w"`
+	Day   int32 `json:"day"`
+	NsDay int64 `json:"ns_of_day"`
+}
+
+func runInstant(c instantCase) (f *vh.Failure) {
+	defer func() {
+		if r := recover(); r != nil {
+			f = vh.Failf("C04/datetime-instant-panic", "panic: %v", r)
+		}
+	}()
+	dt := asetypes.DataType(c.T)
+	y, m, d := rc.CivilFrom1900(int64(c.Day))
+	orig := time.Date(y, time.Month(m), d, 0, 0, 0, 0, time.UTC).Add(time.Duration(c.NsDay))
+	length := int64(8)
+	tick := time.Duration(3333334)
+	if c.W == 4 || c.T == rc.TShortDate {
+		length, tick = 4, time.Minute
+	}
+	bs, err := dt.Bytes(le, orig, length)
+	if err != nil {
+		return vh.Failf("C04/datetime-instant", "%s: Bytes(%v): %v", dt, orig, err)
+	}
+	got, err := dt.GoValue(le, bs)
+	if err != nil {
+		return vh.Failf("C04/datetime-instant", "%s: GoValue(% x): %v", dt, bs, err)
+	}
+	g, ok := got.(time.Time)
+	if !ok {
+		return vh.Failf("C04/datetime-instant", "%s decoded as %T", dt, got)
+	}
+	if diff := g.Sub(orig); diff <= -tick || diff >= tick {
+		cls := "C04/datetime-instant-off-by-more-than-a-tick"
+		if c.Day < 0 {
+			cls = "C04/datetime-before-1900-with-time-part"
+		}
+		return vh.Failf(cls, "%s: %v (day %d + %d ns) came back as %v: off by %v (wire % x)", dt, orig, c.Day, c.NsDay, g, diff, bs)
+	}
+	if c.NsDay >= 86399998334000 {
+		vh.Label("instant:last-half-tick-of-the-day")
+	}
+	vh.NonTrivialHash(uint64(c.Day+800000)<<40 ^ uint64(c.NsDay) ^ uint64(c.T)<<60)
+	return nil
+}
+
+func TestArbitraryInstants(t *testing.T) {
+	gen := func(rt *rapid.T) instantCase {
+		c := instantCase{T: rc.TDateTime}
+		switch rapid.IntRange(0, 3).Draw(rt, "type") {
+		case 1:
+			c.T, c.W = rc.TDateTimeN, 8
+		case 2:
+			c.T = rc.TShortDate
+		case 3:
+			c.T, c.W = rc.TDateTimeN, 4
+		}
+		if c.T == rc.TShortDate || c.W == 4 {
+			c.Day = int32(rapid.IntRange(0, 65534).Draw(rt, "day16"))
+		} else {
+			c.Day = int32(rapid.IntRange(valgen.MinDay1900, valgen.MaxDay1900-1).Draw(rt, "day"))
+		}
+		switch rapid.IntRange(0, 3).Draw(rt, "nsclass") {
+		case 0:
+			c.NsDay = rapid.SampledFrom([]int64{86399999000000, 86399998334000, 86399998333000, 86399999999999, 86399996667000, 0, 1, 999999, 1666666, 1666667, 43200000000000}).Draw(rt, "nsb")
+		case 1:
+			c.NsDay = int64(rapid.IntRange(0, 86399999).Draw(rt, "ms")) * 1000000
+		default:
+			c.NsDay = rapid.Int64Range(0, 86399999999999).Draw(rt, "ns")
+		}
+		if c.T == rc.TShortDate || c.W == 4 {
+			// minutes: the library truncates the seconds; stay clear of the last minute of day 65535
+			c.NsDay = c.NsDay / 1000000000 * 1000000000
+		}
+		return c
+	}
+	vh.Check(t, "TestArbitraryInstants", vh.N(40000, 800000), gen, runInstant)
 }
